@@ -222,6 +222,20 @@ func hostileWorkload(r *mon.Run, run func(hostileCase) (consumedIfAllRejected in
 			run(hostileCase{Kind: "project", Project: &p, Source: "sampled reference templates over 3 types"})
 		}
 	}
+	// (f) numbers with exponents at the machine-word boundaries
+	if r.Shard == 1 {
+		for _, e := range []string{"2147483647", "2147483648", "4294967295", "4294967296", "9223372036854775806", "9223372036854775807", "9223372036854775808",
+			"18446744073709551615", "18446744073709551616", "1000001", "99999999999999999999"} {
+			for _, m := range []string{"1", "12", "1.5", "-1", "0.001"} {
+				for _, sign := range []string{"", "+", "-"} {
+					num := m + "e" + sign + e
+					text(epNumber|epGuess|epDoc, num, "boundary exponent")
+					text(epSchema, num+" // {min: "+num+"}", "boundary exponent in a rule")
+					text(epEnum, "["+num+"]", "boundary exponent in an enum rule")
+				}
+			}
+		}
+	}
 	// (e) nesting ladder
 	li := 0
 	for _, d := range []int{10, 100, 1000, r.Pick(2000, 10_000)} {
